@@ -126,7 +126,7 @@ def run_tlc(module, cfg, *, scratch, tag, workers=16, env=None, timeout=1800, si
         shutil.rmtree(metadir, ignore_errors=True)
     metadir.mkdir(parents=True, exist_ok=True)
     out_path = scratch / f"tlc_{tag}.out"
-    java = ["java", "-XX:+UseParallelGC", f"-Xmx{heap}", "-Dfile.encoding=UTF-8"]
+    java = ["java", "-XX:+UseParallelGC", f"-Xmx{heap}", "-Xss128m", "-Dfile.encoding=UTF-8"]   # deep recursive operators (token walks)
     if dfs:
         java.append("-Dtlc2.tool.queue.IStateQueue=StateDeque")
     cmd = java + ["-cp", f"{JAR}:{DEPS}", "tlc2.TLC", "-workers", str(workers), "-metadir", str(metadir),
